@@ -38,8 +38,15 @@ Record request := {
 
 Definition config := list backend.
 
-(* hasUnsafeBackends *)
-Definition safe_method (m : string) : bool := str_eqb m "GET" || str_eqb m "HEAD".
+(* strings.ToUpper / strings.ToTitle on ASCII method names (the harness uses ASCII only) *)
+Definition upper_ascii (c : ascii) : ascii :=
+  let n := N_of_ascii c in
+  if (97 <=? n)%N && (n <=? 122)%N then ascii_of_N (n - 32) else c.
+Fixpoint upper (s : string) : string :=
+  match s with EmptyString => EmptyString | String c r => String (upper_ascii c) (upper r) end.
+
+(* hasUnsafeBackends: strings.ToUpper(b.Method) is neither GET nor HEAD *)
+Definition safe_method (m : string) : bool := str_eqb (upper m) "GET" || str_eqb (upper m) "HEAD".
 Definition has_unsafe (cfg : config) : bool :=
   match cfg with
   | [_] => false
@@ -302,7 +309,7 @@ Fixpoint sent_of_log (l : list val) : option sent :=
       match sent_of_log r with
       | Some s => Some s
       | None =>
-          Some {| s_method := m; s_url := u; s_query := q; s_hdr := h;
+          Some {| s_method := upper m (* http.NewRequest(strings.ToTitle(Method), ...) *); s_url := u; s_query := q; s_hdr := h;
                   s_body := match r with VBody b :: _ => b | _ => "" end |}
       end
   | _ :: r => sent_of_log r
